@@ -286,6 +286,12 @@ def once(rc):
                                      (IB, "Inference._prune_bayesian_model")])
 
 
+@rule("C01.states", "evidence states reach the factors as NAMES exactly once: a value already translated to a state number is never handed to a name-taking sink", floor=2)
+def states(rc):
+    from . import shared as _sh
+    _sh.state_domain_rule(rc, ("pgmpy/inference/", "pgmpy/models/", "pgmpy/sampling/"))
+
+
 @rule("C01.prune", "pruning and virtual evidence keep what the posterior depends on", floor=4)
 def prune(rc):
     repo = rc.repo
@@ -336,6 +342,9 @@ def defuse(rc):
     _sh.defuse_rule(rc, _sh.anchor_files("C01"))
 
 MUTANTS = [
+    dict(kind="break", name="evidence-translated-twice", file=EI, expect="C01.states",
+         old="        if evidence:\n            for evidence_var in evidence:\n                for factor, origin in working_factors[evidence_var]:",
+         new="        if evidence:\n            evidence = {var: self.factors[var][0].name_to_no[var].get(state, state) for var, state in evidence.items()}\n            for evidence_var in evidence:\n                for factor, origin in working_factors[evidence_var]:"),
     dict(kind="break", name="greedy-joint-unnormalised", file=EI, expect="C01.norm",
          old="                    return result.normalize(inplace=False)\n                else:\n                    return result\n            else:\n                result_dict = {}",
          new="                    return result\n                else:\n                    return result\n            else:\n                result_dict = {}"),
